@@ -3,6 +3,9 @@ package main
 import (
 	"fmt"
 	"math/rand"
+	"regexp"
+
+	"github.com/gobwas/glob"
 	"sort"
 	"strings"
 )
@@ -15,6 +18,10 @@ type genOpts struct {
 }
 
 var sizePool = []int64{0, 1, 5, 9, 10, 11, 100}
+
+// every non-regular, non-directory type other than a plain symlink: device, char device (device|char), named pipe,
+// socket, irregular, and combinations with the symlink bit
+var specialBits = []int{2, 6, 8, 16, 32, 1 | 2, 1 | 8, 1 | 16, 1 | 32, 16 | 32}
 
 func genDir(r *rand.Rand, name string, depth int, budget *int, o genOpts, nPat int) *Node {
 	d := &Node{Name: name, Kind: "dir"}
@@ -34,10 +41,14 @@ func genDir(r *rand.Rand, name string, depth int, budget *int, o genOpts, nPat i
 		switch x := r.Intn(100); {
 		case x < 10:
 			k = "sym"
-		case x < 18:
+		case x < 22:
 			k = "special"
 		}
-		d.Children = append(d.Children, &Node{Name: nm, Kind: k, Size: sizePool[r.Intn(len(sizePool))]})
+		nn := &Node{Name: nm, Kind: k, Size: sizePool[r.Intn(len(sizePool))]}
+		if k == "special" {
+			nn.Bits = specialBits[r.Intn(len(specialBits))]
+		}
+		d.Children = append(d.Children, nn)
 	}
 	if o.gitignore && nPat > 0 && r.Intn(100) < 40 {
 		gi := &Node{Name: ".gitignore", Kind: "reg", Size: 7, Data: 1 + r.Intn(nPat)}
@@ -301,11 +312,53 @@ func genC01(r *rand.Rand, i int) *Case {
 			c.Paths = append(c.Paths, "missing/x")
 		}
 		c.IgnoreSub = r.Intn(100) < 35
+		if c.IgnoreSub && len(dirs) > 0 && r.Intn(100) < 60 {
+			// a requested directory that a skip rule matches: the cut-off must not exempt it
+			d := dirs[r.Intn(len(dirs))]
+			c.Paths = append(c.Paths, d)
+			switch r.Intn(3) {
+			case 0:
+				c.Regex = sp("^" + regexp.QuoteMeta(d) + "$")
+			case 1:
+				c.Glob = sp(glob.QuoteMeta(d))
+			default:
+				c.SkipList = append(c.SkipList, d)
+			}
+		}
 	} else if r.Intn(100) < 4 {
 		c.IgnoreSub = true
 	}
 	genTables(r, c, 1+r.Intn(3), 20)
 	genStatReq(r, c, 25)
+	return c
+}
+
+// genC01OnDisk: like genC01 but with regular files only, scanned from a real directory through os.DirFS.
+func genC01OnDisk(r *rand.Rand, i int) *Case {
+	c := genC01(r, i)
+	c.Stream = "ondisk"
+	c.OnDisk = true
+	c.StatReq = nil
+	for _, d := range allNodes(c.Roots[0]) {
+		if !d.n.isDir() {
+			d.n.Kind = "reg"
+			d.n.Bits = 0
+		}
+	}
+	var ps []string
+	for _, p := range c.Paths {
+		if findNode(c.Roots[0], p) != nil { // a missing absolute path is fine too, but keep the stream simple
+			ps = append(ps, p)
+		}
+	}
+	c.Paths = ps
+	var sk []string
+	for _, p := range c.SkipList {
+		if p != "nonexistent" {
+			sk = append(sk, p)
+		}
+	}
+	c.SkipList = sk
 	return c
 }
 
@@ -516,6 +569,10 @@ func genC09Base(r *rand.Rand) *Case {
 	b := o.budget
 	c.Roots = []*Node{genDir(r, ".", 0, &b, o, nPat)}
 	c.Symlinks = r.Intn(100) < 30
+	if c.Gitignore && r.Intn(5) == 0 {
+		// requested directories: ParseParentGitignores reads the parents' .gitignore files
+		c.Paths = pickSome(r, pathsOf(c.Roots[0], func(n *Node) bool { return n.isDir() }), 2)
+	}
 	genTables(r, c, 1+r.Intn(2), 25)
 	// most files required by someone, so that faults are observable
 	for _, p := range pathsOf(c.Roots[0], func(n *Node) bool { return !n.isDir() }) {
@@ -655,6 +712,125 @@ func genC10(r *rand.Rand, nBases int, everyPoint bool) []*Case {
 		if n >= 2 {
 			add(func(c *Case) { c.MaxInodes = n - 1; c.MaxSize = 5 }, "max_inodes=n-1,max_size=5")
 			add(func(c *Case) { c.MaxInodes = n; c.Cancel = Cancel{Kind: "visit", N: n} }, "max_inodes=n,cancel@visit=n")
+		}
+	}
+	return out
+}
+
+// ---------------------------------------------------------------- C01 thorough: exhaustive small scope
+
+// enumDirs lists every ordered child list for a directory using at most budget nodes: names from {a, b, .gitignore},
+// pairwise different; a and b are a regular file or a directory (recursively), .gitignore is a pattern file.
+func enumChildren(budget int, names []string) [][]*Node {
+	out := [][]*Node{nil}
+	if budget == 0 {
+		return out
+	}
+	for i, nm := range names {
+		rest := append(append([]string{}, names[:i]...), names[i+1:]...)
+		// first child nm, then the remaining children from the remaining names (ordered)
+		var firsts []struct {
+			n    *Node
+			used int
+		}
+		if nm == ".gitignore" {
+			firsts = append(firsts, struct {
+				n    *Node
+				used int
+			}{&Node{Name: nm, Kind: "reg", Size: 2, Data: 1}, 1})
+		} else {
+			size := int64(1)
+			if nm == "b" {
+				size = 2
+			}
+			firsts = append(firsts, struct {
+				n    *Node
+				used int
+			}{&Node{Name: nm, Kind: "reg", Size: size}, 1})
+			for sub := 0; sub <= budget-1; sub++ {
+				for _, ch := range enumChildrenExact(sub, []string{"a", "b", ".gitignore"}) {
+					firsts = append(firsts, struct {
+						n    *Node
+						used int
+					}{&Node{Name: nm, Kind: "dir", Children: ch}, 1 + sub})
+				}
+			}
+		}
+		for _, f := range firsts {
+			for _, tail := range enumChildren(budget-f.used, rest) {
+				out = append(out, append([]*Node{f.n}, tail...))
+			}
+		}
+	}
+	return out
+}
+
+func countNodes(l []*Node) int {
+	n := 0
+	for _, c := range l {
+		n += 1 + countNodes(c.Children)
+	}
+	return n
+}
+
+func enumChildrenExact(k int, names []string) [][]*Node {
+	var out [][]*Node
+	for _, l := range enumChildren(k, names) {
+		if countNodes(l) == k {
+			out = append(out, l)
+		}
+	}
+	return out
+}
+
+// genC01Exhaustive: all trees with at most maxNodes nodes below the root (ordered listings included) x all
+// combinations of the boolean options.
+func genC01Exhaustive(maxNodes int) []*Case {
+	var out []*Case
+	seen := map[string]bool{}
+	for _, ch := range enumChildren(maxNodes, []string{"a", "b", ".gitignore"}) {
+		root := &Node{Name: ".", Kind: "dir", Children: ch}
+		key := fmt.Sprint(coqNode(root))
+		if seen[key] {
+			continue
+		}
+		seen[key] = true
+		hasDirA := false
+		for _, c := range ch {
+			if c.Name == "a" && c.isDir() {
+				hasDirA = true
+			}
+		}
+		for mask := 0; mask < 128; mask++ {
+			if mask&32 == 0 && mask&64 != 0 {
+				continue // the sub-directory cut-off is only enumerated together with a requested path
+			}
+			if mask&32 != 0 && !hasDirA {
+				continue // requested path "a" must be a directory of the tree
+			}
+			c := &Case{Stream: "exhaustive", Roots: []*Node{clone(root)}, Exts: []string{"e0"}, Req: [][2]string{}, Extract: []XEntry{}, PatFiles: [][]string{{"a"}}}
+			for _, p := range pathsOf(root, func(n *Node) bool { return !n.isDir() }) {
+				c.Req = append(c.Req, [2]string{"e0", p})
+				c.Extract = append(c.Extract, XEntry{Ext: "e0", Path: p, Pkgs: []Pkg{{Name: "p", Version: "1", Locs: []string{p}}}})
+			}
+			if mask&1 != 0 {
+				c.SkipList = []string{"a"}
+			}
+			if mask&2 != 0 {
+				c.Regex = sp("a$")
+			}
+			if mask&4 != 0 {
+				c.Glob = sp("b")
+			}
+			c.Gitignore = mask&8 != 0
+			if mask&16 != 0 {
+				c.MaxSize = 1
+			}
+			if mask&32 != 0 {
+				c.Paths = []string{"a"}
+			}
+			c.IgnoreSub = mask&64 != 0
+			out = append(out, c)
 		}
 	}
 	return out
